@@ -13,6 +13,8 @@ def observe(spec, inputs):
     env = inputs["env"]
     m0 = plspec.build(n, spec["model"], env)
     out = {"snap": C.snapshot(n, m0), "error": None, "flags": {}}
+    if spec.get("warm"):
+        C.warm(m0)
     for nid, objs in C.walk(n, m0).items():
         nd = objs[0]
         if issubclass(nd.__class__, n.puan.variable):
@@ -22,6 +24,8 @@ def observe(spec, inputs):
     if spec.get("part") == "flags":
         return out
     m1 = plspec.build(n, spec["model"], env)
+    if spec.get("warm"):
+        C.warm(m1)
     interp = {}
     for l, pres in inputs["present"].items():
         if pres:
